@@ -83,6 +83,13 @@ def make_variants(rng, prog, input_rels, cname, init_rel, init_rows, bogus_rows)
         add(v, 'relation %s(..) = vec![..] (ascent!)' % init_rel, inputs_include_init=False)
         v = E.Variant('initpar', p2, 'ascent_par', body_text=p2.text(init_texts={init_rel: vec_lit(rel, init_rows, par=True)}, indent='      '))
         add(v, 'relation %s(..) = .. (ascent_par!)' % init_rel, inputs_include_init=False)
+        # the caller assigns other contents to an initialised relation before run() (`prog.r = rows;`): the program starts from what
+        # was assigned; the indices built by default() for the initial rows must not survive. The harness empties the vector and
+        # pushes the job's rows; for some inputs as many rows as the initialiser had.
+        for nm, kind, par in (('initassign', 'ascent', False), ('initassignpar', 'ascent_par', True)):
+            v = E.Variant(nm, p2, kind, body_text=p2.text(init_texts={init_rel: vec_lit(rel, bogus_rows, par=par)}, indent='      '))
+            v.assign_rel, v.assign_count = init_rel, len(bogus_rows)
+            add(v, 'relation %s(..) = bogus rows; the caller assigns the real rows before run() (%s)' % (init_rel, kind), inputs_include_init=True)
         # a later re-declaration wins: the earlier one carries a bogus initialiser
         head, items = p2.lines(init_texts={init_rel: vec_lit(rel, init_rows)})
         bogus = rel.decl(vec_lit(rel, bogus_rows))
@@ -154,9 +161,25 @@ def gen_cases(ctx):
             rows = [p for p in rows if p not in init_pairs]
             full = init_pairs + rows
             for v in vs:
+                if getattr(v, 'assign_rel', None):
+                    continue
                 case.jobs.append(P.Job('%s_i%d_%s' % (cname, ii, v.name), case, v, full if v.inputs_include_init else rows, meta={'expect': [full]}))
         cases.append(case)
         n += 1
+        # the assign variants have expectations of their own (some inputs are trimmed to the initialiser's row count): own case
+        av = [v for v in vs if getattr(v, 'assign_rel', None)]
+        if av:
+            case.variants = [v for v in vs if v not in av]
+            c3 = P.Case(cname + 'a', prog, av, meta={'kind': 'packaging', 'variants': {v.name: v.desc for v in av}})
+            for ii in range(sz['inputs']):
+                rows = [r for r in dict.fromkeys(G.gen_input(rng, prog, loadable, dom))]
+                mine = [p for p in rows if p[0] == init_rel]
+                if ii % 2 == 0 and len(mine) > av[0].assign_count:
+                    drop = set(mine[av[0].assign_count:])
+                    rows = [p for p in rows if p not in drop]
+                for v in av:
+                    c3.jobs.append(P.Job('%s_i%d_%s' % (c3.name, ii, v.name), c3, v, [(init_rel + '!clear', ())] + rows, meta={'expect': [rows]}))
+            cases.append(c3)
     # generic struct signatures (programs without interpreted functions or constants)
     g = 0
     while g < sz['generic_cases']:
